@@ -1,7 +1,7 @@
 (* C04 property theorems.  Nothing but statements closed by `exact`, statement pins and
    Print Assumptions.  bs ranges over ALL bit lists, p/k/i over all naturals. *)
 From Coq Require Import List Arith Lia Bool.
-From ZV.C04 Require Import Spec Model ProofsRank ProofsFew ProofsSelect.
+From ZV.C04 Require Import Spec Model ProofsRank ProofsFew ProofsSelect ProofsSelect0.
 Import ListNotations.
 
 (* --- spec layer: the definition itself has the laws the property names --- *)
@@ -73,6 +73,14 @@ Proof. exact se_select1_correct_proof. Qed.
 Check se512_select1_correct : forall bs sp0 sp1 k,
   se_select1 (build bs sp0 sp1) k = select1 bs k.
 Print Assumptions se512_select1_correct.
+
+(* select0 of SE512 as written (zero counts = line*512 - ones, zero-padded inverted words) *)
+Theorem se512_select0_correct : forall bs sp0 sp1 k,
+  se_select0 (build bs sp0 sp1) k = select0 bs k.
+Proof. exact se_select0_correct_proof. Qed.
+Check se512_select0_correct : forall bs sp0 sp1 k,
+  se_select0 (build bs sp0 sp1) k = select0 bs k.
+Print Assumptions se512_select0_correct.
 
 (* --- RankSelectFewOne as written (sorted positions + partition point) --- *)
 Theorem few_rank1_correct : forall bs p,
